@@ -141,4 +141,115 @@ theorem AggInv.run (L : Int → Val → Int) (I : Expo → Prop) (c : Cfg) (h0 :
 theorem AggInv.init (I : Expo → Prop) (c : Cfg) (dest : Slice DPoint) : AggInv I c (AggSt.init dest) :=
   ⟨by intro x hx; simp [AggSt.init] at hx, by intro r hr; simp [AggSt.init] at hr⟩
 
+/-! ## explicit-bucket histogram -/
+
+theorem zipWriteH_eq (noMinMax noSum : Bool) (bounds : List Int) :
+    ∀ (ds : List HDPoint) (order : List (Nat × Hist)), ds.length = order.length →
+      zipWriteH noMinMax noSum bounds ds order =
+        order.map (fun av => writeHPoint noMinMax noSum bounds default av.1 av.2)
+  | [], [], _ => rfl
+  | [], _ :: _, h => by simp at h
+  | _ :: _, [], h => by simp at h
+  | d :: ds, av :: r, h => by
+    simp only [zipWriteH, List.map_cons]
+    rw [zipWriteH_eq noMinMax noSum bounds ds r (by simpa using h)]
+    rfl
+
+theorem hCollectInto_vis (noMinMax noSum : Bool) (bounds : List Int) (order : List (Nat × Hist))
+    (dest : Slice HDPoint) :
+    (hCollectInto noMinMax noSum bounds order dest).vis =
+      order.map (fun av => writeHPoint noMinMax noSum bounds default av.1 av.2) := by
+  unfold hCollectInto
+  exact zipWriteH_eq noMinMax noSum bounds _ order (Slice.reset_len dest _ default)
+
+theorem lookupH_mem : ∀ (vals : List (Nat × Hist)) (a : Nat) (p : Hist), lookupH vals a = some p → (a, p) ∈ vals
+  | [], _, _, h => by simp [lookupH] at h
+  | (k, q) :: r, a, p, h => by
+    unfold lookupH at h
+    split at h
+    · rename_i hk
+      injection h with h
+      subst h; subst hk
+      exact List.mem_cons_self
+    · exact List.mem_cons_of_mem _ (lookupH_mem r a p h)
+
+theorem upsertH_mem : ∀ (vals : List (Nat × Hist)) (a : Nat) (p : Hist) (x : Nat × Hist),
+    x ∈ upsertH vals a p → x ∈ vals ∨ x = (a, p)
+  | [], a, p, x, h => by simp [upsertH] at h; exact Or.inr h
+  | (k, q) :: r, a, p, x, h => by
+    unfold upsertH at h
+    split at h
+    · rename_i hk
+      rcases List.mem_cons.mp h with h | h
+      · subst hk; exact Or.inr h
+      · exact Or.inl (List.mem_cons_of_mem _ h)
+    · rcases List.mem_cons.mp h with h | h
+      · exact Or.inl (h ▸ List.mem_cons_self)
+      · rcases upsertH_mem r a p x h with h | h
+        · exact Or.inl (List.mem_cons_of_mem _ h)
+        · exact Or.inr h
+
+theorem hInOrder_mem (vals : List (Nat × Hist)) (order : List Nat) (x : Nat × Hist) (h : x ∈ hInOrder vals order) :
+    x ∈ vals := by
+  unfold hInOrder at h
+  rcases List.mem_filterMap.mp h with ⟨a, _, ha⟩
+  cases hl : lookupH vals a with
+  | none => simp [hl] at ha
+  | some p =>
+    simp [hl] at ha
+    subst ha
+    exact lookupH_mem vals a p hl
+
+/-- with the sum collected, one more measurement of an attribute set is one more step of the single-set run -/
+theorem histRunSorted_snoc (bounds : List Int) (vs : List Int) (v : Int) :
+    histRunSorted bounds (vs ++ [v]) = histMeasure bounds (histRunSorted bounds vs) v := by
+  simp [histRunSorted, List.foldl_append]
+
+/-- invariant of the explicit-bucket aggregator while the sum is collected (`noSum = false` throughout): every
+live accumulator and every reported point comes from a single-set run over a non-empty list of values -/
+structure HInv (bounds : List Int) (st : HSt) : Prop where
+  flag : st.noSum = false
+  live : ∀ x ∈ st.vals, ∃ vs, vs ≠ [] ∧ histRunSorted bounds vs = some x.2
+  reported : ∀ r ∈ st.reports, ∀ pt ∈ r, ∃ a h vs nmm, vs ≠ [] ∧ histRunSorted bounds vs = some h ∧
+    pt = writeHPoint nmm false bounds default a h
+
+theorem HInv.step (delta : Bool) (limit : Nat) (bounds : List Int) (st : HSt) (op : HOp)
+    (hop : ∀ x y, op = .fresh x y → y = false) (h : HInv bounds st) : HInv bounds (hStep delta limit bounds st op) := by
+  cases op with
+  | meas a v =>
+    refine ⟨h.flag, ?_, h.reported⟩
+    intro x hx
+    simp only [hStep, hMeasure, h.flag] at hx
+    rcases upsertH_mem _ _ _ x hx with hx | hx
+    · exact h.live x hx
+    · subst hx
+      cases hl : lookupH st.vals (hLimitAttr limit st.vals a) with
+      | none => exact ⟨[v], by simp, by simp [histRunSorted, histMeasure]⟩
+      | some p =>
+        obtain ⟨vs, hne, hr⟩ := h.live _ (lookupH_mem _ _ _ hl)
+        refine ⟨vs ++ [v], by simp, ?_⟩
+        rw [histRunSorted_snoc, hr]
+        simp [histMeasure]
+  | collect order =>
+    refine ⟨h.flag, ?_, ?_⟩
+    · intro x hx
+      simp only [hStep] at hx
+      split at hx
+      · simp at hx
+      · exact h.live x hx
+    · intro r hr pt hpt
+      simp only [hStep] at hr
+      rcases List.mem_append.mp hr with hr | hr
+      · exact h.reported r hr pt hpt
+      · simp only [List.mem_singleton] at hr
+        subst hr
+        rw [hCollectInto_vis] at hpt
+        rcases List.mem_map.mp hpt with ⟨x, hx, hxe⟩
+        obtain ⟨vs, hne, hrn⟩ := h.live x (hInOrder_mem _ _ x hx)
+        exact ⟨x.1, x.2, vs, st.noMinMax, hne, hrn, by rw [← hxe, h.flag]⟩
+  | fresh x y =>
+    have := hop x y rfl
+    subst this
+    exact ⟨rfl, by intro z hz; simp [hStep] at hz, h.reported⟩
+
 end Otel.C07
